@@ -56,7 +56,7 @@ func (c07) Info() core.Info {
 		ID:    "C07",
 		Title: "ORDER BY returns a sorted permutation of the unordered result",
 		Level: "exploration",
-		Rule: "select lists with key, value, aliased number / text / Boolean expressions (int, float, upper, is_int, a prefix test) and aggregate lists (sum over int, float and mixed text, count, min) grouped by a key prefix; every sequence of 1..2 (fixed stores: 3) distinct order fields x every asc/desc/default combination; stores = all stores of <= 4 pairs over keys {a,ab,b,c} x values {1,2,10,1.5} (duplicates, ties, int/float mixes) plus text-valued, 7- and 70-pair stores; row and batch (B in {1,2,32}). " +
+		Rule: "select lists with key, value, aliased number / text / Boolean expressions (int, float, upper, is_int, a prefix test), fields defined through other fields, and aggregate lists (sum over int, float and mixed text, count, min) grouped by a key prefix; every sequence of 1..2 (fixed stores: 3) distinct order fields x every asc/desc/default combination; stores = all stores of <= 4 pairs over keys {a,ab,b,c} x values {1,2,10,1.5} (duplicates, ties, int/float mixes) plus text-valued, 7- and 70-pair stores; row and batch (B in {1,2,32}). " +
 			"Oracle: the ordered rows are a permutation of the rows of the same statement without ORDER BY, every adjacent pair is non-decreasing under an independent comparator (lexicographic over the order fields; text byte-wise, numbers numerically across int/float, false < true, direction per field), and a lone `order by key asc` leaves the sequence unchanged. Non-trivial: >= 2 rows and the ordered sequence differs from the unordered one. Distinct: (statement, store, mode, B).",
 		Assumptions: []string{"columns whose two values are of different kinds other than int/float (text vs number) are not compared (no documented order)"},
 	}
@@ -79,6 +79,9 @@ func c07Sels() []c07Sel {
 		{sel: "select substr(key, 0, 1) as g, sum(int(value)) as s, count(1) as c, sum(float(value)) as sf, sum(value) as sv, min(value) as mv where true group by g",
 			names: []string{"g", "s", "c", "sf", "sv", "mv"}, cols: []int{0, 1, 2, 3, 4, 5}, kind: "num", aggr: true},
 		{sel: "select * where key != 'zz'", names: []string{"key", "value"}, cols: []int{0, 1}, kind: "text"},
+		// fields defined through other fields: their type is known only once the names are resolved
+		{sel: "select key, value as v, v + '!' as vx, strlen(v) as l, l * 2 - 1 as m where true",
+			names: []string{"v", "vx", "l", "m"}, cols: []int{1, 2, 3, 4}, kind: "text"},
 	}
 }
 
